@@ -784,7 +784,32 @@ def warm_opcodes():
 
 
 
-def trace_footprint(pf, op, shared=None, root=None, full_every=FULL_EVERY, opcodes=False, cover=None):
+_LOAD_ATTR = [None]
+_CODE_BYTES = {}
+
+
+def loaded_attr(frame):
+    """the attribute name a LOAD_ATTR instruction about to execute loads, else None"""
+    if _LOAD_ATTR[0] is None:
+        import dis
+        _LOAD_ATTR[0] = (dis.opmap.get("LOAD_ATTR"), dis.opmap.get("EXTENDED_ARG"))
+    code = frame.f_code
+    b = _CODE_BYTES.get(id(code))
+    if b is None or b[0] is not code:
+        b = _CODE_BYTES[id(code)] = (code, code.co_code)
+    bc, i = b[1], frame.f_lasti
+    if i < 0 or i + 1 >= len(bc) or bc[i] != _LOAD_ATTR[0][0]:
+        return None
+    arg = bc[i + 1]
+    if i >= 2 and bc[i - 2] == _LOAD_ATTR[0][1]:
+        arg |= bc[i - 1] << 8
+    try:
+        return code.co_names[arg >> 1]          # (the low bit only says "method-style call follows")
+    except IndexError:
+        return None
+
+
+def trace_footprint(pf, op, shared=None, root=None, full_every=FULL_EVERY, opcodes=False, cover=None, attr_reads=None):
     """Run `op` alone under the tracer; returns (raw result, changes, number of line events, scratch
     overwrites) where changes = [(tag, fingerprint), ...] with one entry per CHANGE of the fingerprint
     (first entry = state before the operation).  At every line event the cheap signature is taken;
@@ -830,6 +855,10 @@ def trace_footprint(pf, op, shared=None, root=None, full_every=FULL_EVERY, opcod
             frame_last.clear()
         if cover is not None:
             cover.add((prev[0], prev[1]))
+        if attr_reads is not None and opcodes:
+            a_ = loaded_attr(frame)
+            if a_ is not None:
+                attr_reads.add(a_)
     tr = make_tracer(prefix, on_line, opcodes)
     sys.settrace(tr)
     try:
